@@ -333,6 +333,30 @@ func emlPartGrid() []string {
 	return out
 }
 
+// emlParamGrid: every header parameter the parser looks at, with the degenerate values a truncated or hand-made
+// message carries: a lone quote, an empty quoted string, a quote on one side only, nothing, other punctuation
+func emlParamGrid() []string {
+	var out []string
+	vals := []string{`"`, `""`, `"a`, `a"`, ``, `'`, `=`, `"\\"`, `"\\`, ` `, `"" `, `";`, `a;`}
+	top := "From: a@b.c\r\nTo: d@e.f\r\nSubject: params\r\nMIME-Version: 1.0\r\n"
+	for _, v := range vals {
+		for _, tail := range []string{"", "; format=flowed"} {
+			// single part: charset of the message
+			out = append(out, top+"Content-Type: text/plain; charset="+v+tail+"\r\nContent-Transfer-Encoding: 7bit\r\n\r\nbody\r\n")
+			// multipart: boundary and charset at the top, charset / name / filename / Content-ID in a part
+			out = append(out, top+"Content-Type: multipart/mixed; boundary="+v+tail+"\r\n\r\n--B\r\nContent-Type: text/plain\r\n\r\nx\r\n--B--\r\n")
+			out = append(out, top+"Content-Type: multipart/mixed; charset="+v+"; boundary=B"+tail+"\r\n\r\n--B\r\nContent-Type: text/plain\r\n\r\nx\r\n--B--\r\n")
+			for _, ph := range []string{"Content-Type: text/plain; charset=" + v + tail, "Content-Type: text/plain; name=" + v + tail,
+				"Content-Type: text/plain\r\nContent-Disposition: attachment; filename=" + v + tail,
+				"Content-Type: text/plain\r\nContent-Disposition: inline; filename=" + v + tail + "\r\nContent-ID: " + v,
+				"Content-Type: text/plain\r\nContent-Transfer-Encoding: " + v, "Content-Type: " + v + tail} {
+				out = append(out, top+"Content-Type: multipart/mixed; boundary=B\r\n\r\n--B\r\n"+ph+"\r\n\r\nx\r\n--B--\r\n")
+			}
+		}
+	}
+	return out
+}
+
 func init() {
 	register(Suite{Name: "c09-eml-total", Property: "C09",
 		Rule: "EMLToMsgFromString / EMLToMsgFromReader on (a) renderings of generated messages (single-part and nested multipart), (b) structure-aware mutations of them (parameters truncated, emptied, unquoted, duplicated, re-quoted; boundaries missing or duplicated; encodings mismatched; lines deleted; truncation; byte noise), (c) arbitrary bytes, (d) readers failing at an offset; checks: no panic, returns within 3 s; non-trivial = mutated or failing reader; distinct by input bytes; a corpus of past failures runs first",
@@ -367,6 +391,9 @@ func init() {
 			}
 			for _, s := range emlPartGrid() {
 				check([]byte(s), "part-grid", -1)
+			}
+			for _, s := range emlParamGrid() {
+				check([]byte(s), "param-grid", -1)
 			}
 			n := c.N(3000, 300000)
 			for i := 0; i < n; i++ {
